@@ -151,8 +151,7 @@ pub trait ParallelIterator: Sized + Send {
         self.lower().adapt(move |item, sink| sink(map_op(item)))
     }
 
-    /// rayon clones `init` once per split; here every task gets its own clone,
-    /// made when the task starts.
+    /// rayon clones `init` once per job; see `map_init` for how jobs are chosen.
     fn map_with<'a, F, T, R>(self, init: T, map_op: F) -> ParIter<'a, R, Self::Kind>
     where
         Self: 'a,
@@ -164,21 +163,47 @@ pub trait ParallelIterator: Sized + Send {
         self.map_init(move || init.lock().unwrap().clone(), map_op)
     }
 
-    /// rayon calls `init` once per split; here once per task.
+    /// rayon calls `init` once per job (a run of consecutive items that one worker processes
+    /// without being split further) and reuses the value for every item of the job. The
+    /// partition into jobs is rayon's choice, so it is the oracle's here
+    /// (`Site::ReduceSplit`; default: one job holding everything, as on a pool that never
+    /// splits). The items of a job run sequentially, in index order, inside one section task.
     fn map_init<'a, F, INIT, T, R>(self, init: INIT, map_op: F) -> ParIter<'a, R, Self::Kind>
     where
         Self: 'a,
         F: Fn(&mut T, Self::Item) -> R + Sync + Send + 'a,
         INIT: Fn() -> T + Sync + Send + 'a,
+        T: Send + 'a,
         R: Send + 'a,
     {
         let shared = Arc::new((init, map_op));
-        self.lower().map_tasks(|_, task| {
+        let mut lowered = self.lower();
+        let sizes = lowered.ensure_runs();
+        // job id of every task
+        let mut job_of = Vec::with_capacity(lowered.tasks.len());
+        for (job, size) in sizes.iter().enumerate() {
+            job_of.extend(std::iter::repeat(job).take(*size));
+        }
+        let states: Vec<Arc<Mutex<Option<T>>>> = sizes.iter().map(|_| Arc::new(Mutex::new(None))).collect();
+        lowered.map_tasks(|i, task| {
             let shared = Arc::clone(&shared);
+            let state = job_of.get(i).map(|&j| Arc::clone(&states[j]));
             task.wrap(move |task, sink| {
                 let (init, map_op) = &*shared;
-                let mut state = init();
-                task.run(&mut |item| sink(map_op(&mut state, item)));
+                // The job's state, created by its first item. Should the partition have been
+                // lost further down the pipeline (zip, chain, ...) and another item of the job
+                // be running right now, this item forms a job of its own: any split is legal.
+                let mut guard = state.as_ref().and_then(|s| s.try_lock().ok());
+                match guard.as_deref_mut() {
+                    Some(slot) => {
+                        let st = slot.get_or_insert_with(init);
+                        task.run(&mut |item| sink(map_op(st, item)));
+                    }
+                    None => {
+                        let mut st = init();
+                        task.run(&mut |item| sink(map_op(&mut st, item)));
+                    }
+                }
             })
         })
     }
@@ -492,6 +517,7 @@ pub trait ParallelIterator: Sized + Send {
     where
         OP: Fn(&mut T, Self::Item) + Sync + Send,
         INIT: Fn() -> T + Sync + Send,
+        T: Send,
     {
         self.map_init(init, op).collect()
     }
@@ -517,6 +543,7 @@ pub trait ParallelIterator: Sized + Send {
     where
         OP: Fn(&mut T, Self::Item) -> R + Sync + Send,
         INIT: Fn() -> T + Sync + Send,
+        T: Send,
         R: Try<Output = ()> + Send,
     {
         self.map_init(init, op).try_reduce(<()>::default, |(), ()| R::from_output(()))
